@@ -30,6 +30,8 @@ FAULTS = [
     # "once each call has returned or raised the number of checked-out connections is back to zero": also when what is raised is not an Exception
     {"recv_fault": (0, "kbd")},
     {"send_fault": "interrupt"},
+    # the fault strikes after connect() succeeded, while the I/O timeout is being set: that socket is a connection, and it failed
+    {"connect_fault": ("settimeout", "oserror", 1)},
 ]
 ALPHA = [{"op": "set", "k": "a", "v": b"1", "nr": False}, {"op": "get", "k": "a"}, {"op": "get_many", "ks": ["a", "b"]}, {"op": "incr", "k": "a", "d": 1, "nr": False},
          {"op": "delete", "k": "a", "nr": False}, {"op": "quit"}, {"op": "set", "k": " bad key", "v": b"1", "nr": False}, {"op": "decr", "k": "a", "d": 1, "nr": False},
@@ -212,6 +214,56 @@ def main(argv):
         lines.append(f"pooled cfg={mx or 2 ** 31},{round(idle * SCALE)} evs={','.join(model_evs) or '-'}")
         metas.append(({"cfg": cfg, "calls": [(it[0], it[1]["op"], repr(it[2]), (it[3] if len(it) > 3 else 0)) for it in seq], "events": model_evs},
                       f"ok obs=[{','.join(obs)}] free=[{free}] closed=[{','.join(map(str, closed_order))}] out=0"))
+    # ---- several idle connections (built by a call issued from inside another call - the same as two overlapping callers), then calls one at a
+    #      time: whatever order the pool keeps them in, after a checkout no connection that had idled out by then may still be open --------------
+    for idle in (10, 0.5):
+        for ign in (False, True):
+            for nested in (1, 2):
+                for gaps in ((0, 9, 2, 2, 2, 2, 2, 2), (5, 5, 1, 4, 4, 4, 4), (0, 11, 4, 4, 4), (9, 9, 9, 9), (3, 3, 3, 3, 3, 3)):
+                    CLOCK[0] = 1000.0
+                    S = Scripted(rng)
+                    pc = PooledClient(("h", 1), socket_module=S.sm, max_pool_size=None, pool_idle_timeout=idle, ignore_exc=ign, default_noreply=False)
+                    pool = pc.client_pool
+                    released = {}
+                    real_release = pool.release
+
+                    def release(o, *a, _rr=real_release, _rel=released, **kw):
+                        r = _rr(o, *a, **kw)
+                        _rel[id(o)] = CLOCK[0]
+                        return r
+                    pool.release = release
+                    depth = [0]
+                    orig_on_send = S.world.server
+
+                    def on_send(conn, data, _o=orig_on_send, _d=depth, _pc=pc, _n=nested):
+                        if _d[0] < _n:
+                            _d[0] += 1
+                            CLOCK[0] += 1
+                            _pc.get("inner%d" % _d[0])          # a second caller while the first one is waiting for its reply
+                        return _o(conn, data)
+                    S.world.server = on_send
+                    S.begin_call(0, {})
+                    pc.set("a", b"1", noreply=False)
+                    S.world.server = orig_on_send
+                    case = {"pool_idle_timeout": idle, "ignore_exc": ign, "connections_built_by_overlapping_calls": nested + 1, "gaps": list(gaps)}
+                    ctx.case(("multi-idle", idle, ign, nested, gaps))
+                    ctx.count("several-idle-connections")
+                    scale = 1.0 if idle >= 1 else 0.05
+                    for n_, g in enumerate(gaps):
+                        CLOCK[0] += g * scale
+                        now = CLOCK[0]
+                        idle_before = {id(o): released.get(id(o)) for o in pool.free}
+                        objs = {id(o): o for o in pool.free}
+                        S.begin_call(10 + n_, {})
+                        r = run_call(pc, {"op": "get", "k": "a"})
+                        stale = [oid for oid, t_rel in idle_before.items() if t_rel is not None and now - t_rel > idle and objs[oid].sock is not None and not objs[oid].sock.closed]
+                        if stale:
+                            ctx.violation("after a checkout a pooled connection that had been idle longer than pool_idle_timeout is still open",
+                                          dict(case, call=n_, idle_for=[round(now - idle_before[x], 3) for x in stale], result=r[:30]), tags=["idle-not-expired", "several-idle"])
+                            break
+                        if len(pool.used) != 0:
+                            ctx.violation("a connection is still checked out after the call returned/raised", dict(case, checked_out=len(pool.used)), tags=["used-nonzero"])
+                            break
     if ctx.lean.build_ok:
         for (case, want), o in zip(metas, ctx.driver.batch(lines)):
             if o != want:
